@@ -169,6 +169,10 @@ func eval(cs Case, x *fw.Rec) {
 		focus = d1.focus
 	case "absent":
 		focus = "no-such-workload"
+	case "near-miss-suffix": // absent, but one edit away from a present name
+		focus = d1.focus + "-x"
+	case "near-miss-prefix":
+		focus = d1.focus[:len(d1.focus)-1]
 	}
 	if cs.Cmd == "list" {
 		args = []string{"list", "--dirpath", d1.path, "-o", cs.Format}
@@ -301,11 +305,11 @@ func Run(r *fw.Run) {
 		d := c.Choose(len(dirs), "directory")
 		f := fw.Pick(c, []string{"txt", "json", "csv", "md", "dot"}, "-o")
 		exp := c.Choose(2, "--exposure") == 1
-		focus := fw.Pick(c, []string{"", "present", "absent"}, "--focusworkload")
+		focus := fw.Pick(c, []string{"", "present", "absent", "near-miss-suffix", "near-miss-prefix"}, "--focusworkload")
 		fail := c.Choose(2, "--fail") == 1
 		verb := fw.Pick(c, []string{"", "-q", "-v"}, "verbosity")
 		toFile := c.Choose(2, "-f") == 1
-		if focus == "present" && dirs[d].focus == "" {
+		if (focus == "present" || strings.HasPrefix(focus, "near-miss")) && dirs[d].focus == "" {
 			c.Skip()
 		}
 		return Case{Cmd: "list", D1: d, Format: f, Exposure: exp, Focus: focus, Fail: fail, Verb: verb, ToFile: toFile,
